@@ -46,22 +46,22 @@ FILES = {
     "service/swog/_saved_queries.py": ["C15"],
     "service/swog/_refresh_zoq_file.py": ["C12"],
     "storage/sql/_query_converter.py": ["C03", "C09"],
-    "storage/sql/_page_converters.py": ["C05", "C06", "C03"],
-    "storage/sql/_repo.py": ["C06", "C05", "C13"],
+    "storage/sql/_page_converters.py": ["C05", "C06", "C03", "C11"],
+    "storage/sql/_repo.py": ["C06", "C05", "C03", "C09", "C13"],
     "storage/sql/_zid_manager.py": ["C07", "C05"],
     "storage/sql/_session.py": ["C06", "C13"],
-    "storage/file/_manager.py": ["C10"],
+    "storage/file/_manager.py": ["C10", "C12"],
     "service/handlers.py": ["C05", "C11", "C06", "C13", "C08"],
     "service/messagebus.py": ["C05", "C13"],
-    "service/note_utils.py": ["C10", "C17"],
+    "service/note_utils.py": ["C10", "C12", "C17"],
     "service/templates.py": ["C16"],
     "service/file_groups.py": ["C18"],
     "shared/common.py": ["C14", "C16", "C18", "C13"],
-    "shared/dates.py": ["C04", "C01", "C07"],
+    "shared/dates.py": ["C04", "C01", "C07", "C11", "C05"],
     "domain/types.py": ["C12", "C01", "C09"],
     "domain/models/_page.py": ["C12", "C01"],
     "domain/models/_query.py": ["C04", "C09"],
-    "app/runners/_run_action.py": ["C17"],
+    "app/runners/_run_action.py": ["C17", "C16"],
     "app/runners/_run_file.py": ["C14"],
     "app/runners/_run_note.py": ["C10"],
     "app/runners/_run_query.py": ["C09"],
